@@ -19,11 +19,14 @@ META = {
         "unchanged, and the client returns <own reply>[\"result\"] unconditionally after the error check; C01.5 History "
         "records the very request text sent (before the exchange) and the very response text later parsed (after it), "
         "guarded only by `history is not None`; C01.6 a batch is the comma-join of job.request() in job-list order, sent "
-        "through the proxy's _run_request, and results are indexed positionally."),
+        "through the proxy's _run_request, and results are indexed positionally; C01.7 method names travel unchanged: attribute "
+        "access on a method object yields <name>.<attr> bound to the same sender (abstractly evaluated), the proxy / notifier / "
+        "MultiCall create method objects / jobs for the requested name, a batch job is serialised from its own fields; C01.8 the "
+        "HTTP handler hands the decoded body to the dispatcher and writes the dispatcher's reply."),
     "does_not_decide": "equality of values after JSON normalisation, Unicode/float fidelity of the backend, socket "
                        "behaviour of the three transports, exactly-once across retries inside xmlrpc.client.",
     "rules": {"C01.1": "CFG exploration + provenance", "C01.2": "provenance of arguments", "C01.3": "exploration with a call counter",
-              "C01.4": "provenance + dominance", "C01.5": "dominance / post-dominance on normal paths", "C01.6": "provenance of the join operand"},
+              "C01.4": "provenance + dominance", "C01.5": "dominance / post-dominance on normal paths", "C01.6": "provenance of the join operand", "C01.7": "shape interpreter + provenance", "C01.8": "provenance"},
     "assumptions": ["xmlrpc.client._Method stores its two constructor arguments as __send and __name"],
 }
 
@@ -94,6 +97,93 @@ def check(ck):
                                    "%s: %s(%s, ...)" % (q.fn(fi), dump(c.func), dump(c.args[0])), "self.__send(self.__name, ...)",
                                    "the call is not sent as self.__send(self.__name, <args>)", q.loc(fi, n))
     ck.floor("C01.1", 8)
+
+    # ---- C01.7 method names: plain, dotted, notification, batch ---------------------------------------------
+    K = shape.K
+    fga = prog.func("jsonrpc", "_Method.__getattr__")
+    for (cur, nxt, want) in (("a", "b", "a.b"), ("a.b", "c", "a.b.c"), ("x", "\u00e9t\u00e9", "x.\u00e9t\u00e9")):
+        ev = shape.Evaluator(prog, "jsonrpc", lenient=True)
+        send = shape.Sym("send", truthy=True)
+        res = ev.run(fga, {"name": K(nxt)}, lambda: shape.Obj("_Method", {"_Method__send": send, "_Method__name": K(cur)}))
+        okk = len(res) == 1 and res[0][1][0] == "return" and isinstance(res[0][1][1], shape.Opaque) and res[0][1][1].label == "_Method"
+        if okk:
+            a = res[0][1][1].attrs.get("__args__")
+            okk = isinstance(a, shape.L) and len(a.elts) == 2 and a.elts[0] is send and a.elts[1] == K(want)
+        ck.require(okk, "C01.7", "%s: %s -> .%s" % (q.fn(fga), cur, nxt), "_Method(self.__send, %r)" % want,
+                   "attribute access .%s on the method object %r does not yield a method object for %r bound to the same sender" % (nxt, cur, want),
+                   q.loc(fga, fga.node))
+    for (cls, meth, sender) in (("ServerProxy", "__getattr__", "_request"), ("_Notify", "__getattr__", "_request")):
+        fi = prog.func("jsonrpc", "%s.%s" % (cls, meth))
+        g = cfg_of(fi)
+        rets = [n for n in g.live_nodes() if n.kind == "return" and n.ast is not None and n.ast.value is not None]
+        okk = False
+        for rn in rets:
+            t = prov.origin(g, rn, rn.ast.value)
+            if t[0] == "call" and t[1] == ("global", "_Method") and len(t[2]) == 2 and t[2][0] == ("attr", ("param", "self"), sender) and t[2][1] == ("param", "name"):
+                okk = True
+        ck.require(okk, "C01.7", "%s: returns _Method(self.%s, name)" % (q.fn(fi), sender), "name forwarded unchanged",
+                   "%s.%s does not return a method object for the requested name bound to self.%s" % (cls, meth, sender), q.loc(fi, fi.node))
+    fnp = prog.func("jsonrpc", "ServerProxy._notify")
+    gnp = cfg_of(fnp)
+    okk = any(prov.origin(gnp, rn, rn.ast.value) == ("call", ("global", "_Notify"), (("attr", ("param", "self"), "_request_notify"),), ())
+              for rn in gnp.live_nodes() if rn.kind == "return" and rn.ast is not None and rn.ast.value is not None)
+    ck.require(okk, "C01.7", "%s: _Notify(self._request_notify)" % q.fn(fnp), "notifications use _request_notify",
+               "proxy._notify is not bound to _request_notify", q.loc(fnp, fnp.node))
+    for (cls, notify) in (("MultiCall", False), ("MultiCallNotify", True)):
+        fi = prog.func("jsonrpc", cls + ".__getattr__")
+        g = cfg_of(fi)
+        mk = q.call_sites(prog, fi, lambda r, c: r == "class:jsonrpc.MultiCallMethod")
+        okk = len(mk) == 1 and prov.origin(g, mk[0][0], mk[0][1].args[0]) == ("param", "name")
+        nf = kwarg(mk[0][1], "notify", 1) if mk else None
+        okk = okk and ((nf is not None and isinstance(nf, ast.Constant) and nf.value is True) if notify else (nf is None or (isinstance(nf, ast.Constant) and nf.value is False)))
+        ck.require(okk, "C01.7", "%s: MultiCallMethod(name%s)" % (q.fn(fi), ", notify=True" if notify else ""), "job created for the requested name",
+                   "%s.__getattr__ does not create the job for the requested name with notify=%s" % (cls, notify), q.loc(fi, fi.node))
+    fmr = prog.func("jsonrpc", "MultiCallMethod.request")
+    gmr = cfg_of(fmr)
+    cs = q.call_sites(prog, fmr, lambda r, c: q.is_func(r, "jsonrpc.dumps"))
+    okk = len(cs) == 1
+    if okk:
+        n, c = cs[0]
+        okk = q.arg_origin(fmr, n, c, "params", 0) == ("attr", ("param", "self"), "params") and \
+            q.arg_origin(fmr, n, c, "methodname", 1) == ("attr", ("param", "self"), "method") and \
+            q.arg_origin(fmr, n, c, "notify", 6) == ("attr", ("param", "self"), "notify") and \
+            q.arg_origin(fmr, n, c, "config", 7) == ("attr", ("param", "self"), "_config")
+    ck.require(okk, "C01.7", "%s: dumps(self.params, self.method, notify=self.notify, config=self._config)" % q.fn(fmr), "job serialised from its own fields",
+               "a batch job is not serialised from its own params / method / notify / config", q.loc(fmr, fmr.node))
+    fmg = prog.func("jsonrpc", "MultiCallMethod.__getattr__")
+    for (cur, nxt, want) in (("a", "b", "a.b"),):
+        ev = shape.Evaluator(prog, "jsonrpc", lenient=True)
+        holder = []
+
+        def mk_():
+            o = shape.Obj("MultiCallMethod", {"method": K(cur)})
+            holder[:] = [o]
+            return o
+        res = ev.run(fmg, {"method": K(nxt)}, mk_)
+        okk = len(res) == 1 and res[0][1][0] == "return" and res[0][1][1] is holder[0] and holder[0].attrs.get("method") == K(want)
+        ck.require(okk, "C01.7", "%s: nested batch name %s.%s" % (q.fn(fmg), cur, nxt), "method becomes %r" % want,
+                   "a dotted batch call does not accumulate the dotted name", q.loc(fmg, fmg.node))
+    ck.floor("C01.7", 10)
+
+    # ---- C01.8 server transport hand-off ------------------------------------------------------------------------
+    fpost = prog.func(SRV, "SimpleJSONRPCRequestHandler.do_POST")
+    gpo = cfg_of(fpost)
+    dcs = [(n, c) for n in gpo.live_nodes() for c in node_calls(n) if call_name(c) == "_marshaled_dispatch"]
+    if len(dcs) != 1:
+        raise AnalysisError("anchor vanished: _marshaled_dispatch call in do_POST")
+    n, c = dcs[0]
+    t = prov.origin(gpo, n, c.args[0]) if c.args else None
+    from_body = t is not None and prov.contains(t, lambda x: x[0] == "call" and x[1][0] == "attr" and x[1][2] == "join")
+    ck.require(from_body, "C01.8", "%s: dispatch receives the decoded body" % q.fn(fpost), "data derived from the joined reads",
+               "the dispatcher is given %s, not the received body" % (prov.show(t)[:80] if t else None), q.loc(fpost, n))
+    wr = [(m, cc) for m in gpo.live_nodes() for cc in node_calls(m) if dump(cc.func) == "self.wfile.write"]
+    okk = len(wr) == 1
+    if okk:
+        tw = prov.origin(gpo, wr[0][0], wr[0][1].args[0])
+        inner = [x for x in prov.subterms(tw) if x[0] == "call" and x[1][0] == "attr" and x[1][2] in ("_marshaled_dispatch", "response")]
+        okk = tw[0] == "call" and prov.show(tw[1]).endswith("to_bytes") and bool(inner)
+    ck.require(okk, "C01.8", "%s: the reply written is the dispatcher's result" % q.fn(fpost), "to_bytes(<_marshaled_dispatch result | fault.response()>)",
+               "the bytes written to the client are not the dispatcher's reply", q.loc(fpost, fpost.node))
 
     # ---- C01.2 request construction ---------------------------------------------------------------
     for meth, notify in (("ServerProxy._request", False), ("ServerProxy._request_notify", True)):
